@@ -206,6 +206,12 @@ impl RecUni for U {
 
     fn batch_build(s: &FriShape, proof: &Self::BatchProof, common: &Common) -> Result<Built, CircuitVerdict> {
         let config = crate::rec::kb4::config(s);
+        // `allocate` asserts that it is given one public-value count per proof instance: the
+        // verifier knows its AIR list and has to compare first, as verify_p3_batch_proof_circuit
+        // does for circuit proofs
+        if proof.opened_values.instances.len() != common.airs.len() {
+            return Err(CircuitVerdict::BuildErr(format!("InvalidProofShape: {} instances for {} AIRs", proof.opened_values.instances.len(), common.airs.len())));
+        }
         let built = observe(|| {
             let mut cb = CircuitBuilder::<Challenge>::new();
             cb.enable_poseidon2_perm::<KoalaBearD4Width16, _>(generate_poseidon2_trace::<Challenge, KoalaBearD4Width16>, p3_koala_bear::default_koalabear_poseidon2_16());
